@@ -1747,6 +1747,9 @@ def lt(left: Any, right: Any) -> bool:
   # we detect such types to make `lt` to run faster.
   if isinstance(left, (int, float, bool, str)):
     return left < right
+  elif left is None or isinstance(left, utils.MissingValue):
+    # `right` is of the same type: None and MISSING_VALUE are singletons.
+    return False
   elif isinstance(left, list):
     min_len = min(len(left), len(right))
     for i in range(min_len):
